@@ -195,10 +195,16 @@ var c18Seq = registerSpace(&e1Space{
 	Prop: "C18", Name: "scopes",
 	N: func(th bool) int64 {
 		seqs := int64(1 + c18NOps + c18NOps*c18NOps + c18NOps*c18NOps*c18NOps)
+		if th {
+			seqs += pow(c18NOps, 4) // sequences of four operations
+		}
 		return seqs * c18NSites * 4 * 3
 	},
 	Gen: func(i int64, th bool) *rj.Program {
 		seqs := int64(1 + c18NOps + c18NOps*c18NOps + c18NOps*c18NOps*c18NOps)
+		if th {
+			seqs += pow(c18NOps, 4)
+		}
 		si := i % seqs
 		i /= seqs
 		site := int(i % c18NSites)
@@ -206,7 +212,7 @@ var c18Seq = registerSpace(&e1Space{
 		cfg := int(i % 4)
 		pre := int(i / 4) // 0: nothing declared outside; 1: x declared in an enclosing scope
 		n := 0
-		for n = 0; n <= 3; n++ {
+		for n = 0; n <= 4; n++ {
 			if si < pow(c18NOps, int64(n)) {
 				break
 			}
